@@ -42,6 +42,7 @@ import (
 
 type namedU32 uint32
 type namedKey [32]byte
+type namedBytes []byte
 type someStruct struct{ A uint32 }
 
 // one value handed to New, with what the generator knows about it
@@ -57,6 +58,9 @@ type newVal struct {
 	none    bool        // neither a number nor bytes
 	isNil   bool
 	fromReg bool // a register value (one of the 26 register types)
+	named   bool // bytes held in a slice type that is not []byte itself (a named slice type): the code may
+	// refuse them whatever their length (it does: only []byte itself is taken for the key), so 'own width must be
+	// accepted' is not demanded; everything else is (no panic, wrong length refused, accepted bytes kept whole)
 }
 
 func randBytes(c *gal.Ctx, n int) []byte {
@@ -179,6 +183,16 @@ func newValues(c *gal.Ctx, p registers.Register) []newVal {
 		b := randBytes(c, n)
 		vs = append(vs, bytesVal("[]byte", b, b))
 	}
+	// bytes in named slice types (registers.TXTConfigSpace is one the package itself hands out): the model sees
+	// a value that is not []byte (VOther: refused)
+	for _, n := range []int{32, 31, 33, 0, 1, 64, ser, ser + 1} {
+		b := randBytes(c, n)
+		nb := bytesVal("named []byte (harness type)", namedBytes(b), b)
+		nb.lit, nb.named = "VOther", true
+		cs := bytesVal("registers.TXTConfigSpace", registers.TXTConfigSpace(b), b)
+		cs.lit, cs.named = "VOther", true
+		vs = append(vs, nb, cs)
+	}
 	// nothing that could be a raw value
 	vs = append(vs,
 		newVal{kind: "nil", v: nil, lit: "VNil", isNil: true},
@@ -233,7 +247,7 @@ func judgeNew(c *gal.Ctx, idx int, id registers.RegisterID, p registers.Register
 	if err != nil {
 		must := ""
 		switch {
-		case destKey && nv.isB && len(nv.bytes) == 32:
+		case destKey && nv.isB && len(nv.bytes) == 32 && !nv.named:
 			must = "32 bytes are a value of the key register's own width"
 		case !destKey && nv.num != nil && !nv.neg && nv.bits == w:
 			must = fmt.Sprintf("an unsigned %d-bit value is of the register's own width", w)
